@@ -1,1 +1,192 @@
-(* the C05 handler lives in c06.ml (it shares C06 encodings) and registers itself there *)
+(* C05.  The Q / A / N / NS / X / E lines are handled in c06.ml (they share the C06 encodings; it is
+   linked before this file).  Here: the nested-path lines, judged by the extracted resolver of
+   coq/Model/NestedPath.v.
+   P  <hexpath> # <value> # <ParseFieldPath: ok n parts | err | nil | panic> # <GetNestedField: found v | missing | panic>
+   NQ <hexsql> # <n> (<hextext> <hexalias|~> <nsegs> seg..)* w0|w1 expr # <row> # <fresh> # <used> # <async>
+   value tokens: N | n<num>/<den> | s<hex> | b0 | b1 | A<k> v.. | M<k> (hexkey v).. *)
+open Model
+open Util
+open C06
+
+let rec p_jvalue (t : string list) : jvalue * string list =
+  match t with
+  | [] -> failwith "value expected"
+  | x :: r ->
+      let body = String.sub x 1 (String.length x - 1) in
+      (match x.[0] with
+       | 'N' -> (JS VNull, r)
+       | 'n' -> (JS (VNum (q_of_string body)), r)
+       | 's' -> (JS (VStr (bytes_of_hex body)), r)
+       | 'b' -> (JS (VBool (body = "1")), r)
+       | 'A' ->
+           let rec go k r = if k = 0 then ([], r) else
+               let (v, r) = p_jvalue r in let (l, r) = go (k - 1) r in (v :: l, r) in
+           let (l, r) = go (int_of_string body) r in (JArr l, r)
+       | 'M' ->
+           let rec go k r = if k = 0 then ([], r) else
+               (match r with
+                | key :: r -> let (v, r) = p_jvalue r in let (l, r) = go (k - 1) r in ((bytes_of_hex key, v) :: l, r)
+                | [] -> failwith "key expected") in
+           let (l, r) = go (int_of_string body) r in (JMap l, r)
+       | 'u' -> (* a Go value of a type outside the model (e.g. the uint8 an expression engine returns for
+                    an index into a string): equal to no model value *)
+           (JMap [ ([ Util.n_of_int 0 ], JS (VStr (bytes_of_hex body))) ], r)
+       | _ -> failwith ("bad value token " ^ x))
+let jvalue_of (t : string list) : jvalue =
+  match p_jvalue t with (v, []) -> v | _ -> failwith "trailing value tokens"
+
+let q_same (a : q) (b : q) : bool = Z.eqb (Z.mul a.qnum (Zpos b.qden)) (Z.mul b.qnum (Zpos a.qden))
+let rec j_same (a : jvalue) (b : jvalue) : bool =
+  match a, b with
+  | JS VNull, JS VNull -> true
+  | JS (VNum x), JS (VNum y) -> q_same x y
+  | JS (VStr x), JS (VStr y) -> x = y
+  | JS (VBool x), JS (VBool y) -> x = y
+  | JArr x, JArr y -> List.length x = List.length y && List.for_all2 j_same x y
+  | JMap x, JMap y ->
+      List.length x = List.length y &&
+      List.for_all (fun (k, v) -> match List.assoc_opt k y with Some w -> j_same v w | None -> false) x
+  | _ -> false
+let rec show_j (v : jvalue) : string =
+  match v with
+  | JS x -> show_val x
+  | JArr l -> String.concat " " (("A" ^ string_of_int (List.length l)) :: List.map show_j l)
+  | JMap m -> String.concat " " (("M" ^ string_of_int (List.length m)) :: List.map (fun (k, v) -> hex_of_bytes k ^ " " ^ show_j v) m)
+
+let show_part = function
+  | PField n -> "f" ^ hex_of_bytes n
+  | PIndex i -> "i" ^ show_z i
+  | PKey k -> "k" ^ hex_of_bytes k
+let show_parse (text : n list) : string =
+  if text = [] then "nil" else
+  match np_parse text with
+  | PPanic -> "panic"
+  | PErr -> "err"
+  | POk ps -> String.concat " " ("ok" :: string_of_int (List.length ps) :: List.map show_part ps)
+
+let handle_p (rest : string list) : string =
+  match Win.split_hash rest with
+  | [ [ path ]; data; pobs; gobs ] ->
+      let text = bytes_of_hex path in
+      let d = jvalue_of data in
+      let mp = show_parse text in
+      if mp <> String.concat " " pobs then "diff np_parse model=" ^ mp
+      else
+        (match nested_field d text, gobs with
+         | NPanic, [ "panic" ] -> "chk nested_path_panics lone_quote_bracket"
+         | NMissing, [ "missing" ] -> "ok nt"
+         | NFound v, "found" :: o -> if j_same v (jvalue_of o) then "ok nt" else "diff nested_field model=found " ^ show_j v
+         | NPanic, _ -> "diff nested_field model=panic"
+         | NMissing, _ -> "diff nested_field model=missing"
+         | NFound v, _ -> "diff nested_field model=found " ^ show_j v)
+  | _ -> "bad line"
+
+let p_nquery (t : string list) : nquery * (n list * nseg list) list =
+  match t with
+  | n :: r ->
+      let rec segs k r = if k = 0 then ([], r) else
+          (match r with
+           | s :: r ->
+               let body = bytes_of_hex (String.sub s 1 (String.length s - 1)) in
+               let sg = (match s.[0] with 'n' -> SName body | 'r' -> SBr body | _ -> failwith "bad seg") in
+               let (l, r) = segs (k - 1) r in (sg :: l, r)
+           | [] -> failwith "seg expected") in
+      let rec items k r = if k = 0 then ([], [], r) else
+          (match r with
+           | text :: alias :: ns :: r ->
+               let (sg, r) = segs (int_of_string ns) r in
+               let it = { ni_path = bytes_of_hex text; ni_alias = (if alias = "~" then None else Some (bytes_of_hex alias)) } in
+               let (l, s, r) = items (k - 1) r in (it :: l, (bytes_of_hex text, sg) :: s, r)
+           | _ -> failwith "item expected") in
+      let (l, s, r) = items (int_of_string n) r in
+      let w = (match r with "w0" :: _ -> None | "w1" :: r -> Some (fst (p_expr r)) | _ -> failwith "bad where") in
+      ({ nq_items = l; nq_where = w }, s)
+  | [] -> failwith "empty query"
+
+type ncmp = NSame of bool | NUnmodelled | NDiffer of string
+let show_cells (r : (n list * ncell) list) : string =
+  String.concat " " (List.map (fun (k, c) -> hex_of_bytes k ^ "=" ^ (match c with CVal v -> show_j v | CUnm -> "?")) r)
+let cmp_ndirect (q : nquery) (d : ndirect_res) (obs : string list) : ncmp =
+  match d, obs with
+  | NDUnm, _ -> NUnmodelled
+  | NDNone, [ "none" ] -> NSame false
+  | NDPanic, [ "panic" ] -> NSame true
+  | NDRow r, (m :: _) when String.length m > 0 && m.[0] = 'M' ->
+      (match jvalue_of obs with
+       | JMap cells ->
+           let ok = List.length cells = List.length r &&
+             List.for_all (fun (k, c) -> match List.assoc_opt k cells with
+               | Some o -> (match c with CVal v -> j_same v o | CUnm -> true)
+               | None -> false) r in
+           (* non-trivial: a cell of a nested path was judged by the resolver *)
+           let nt = List.exists (fun it -> np_route it.ni_path = RSimple &&
+                                           List.exists (fun c -> Util.int_of_n c = 46 || Util.int_of_n c = 91) it.ni_path) q.nq_items in
+           if ok then NSame nt else NDiffer ("model=" ^ show_cells r)
+       | _ -> NDiffer "observed is not a row")
+  | NDNone, _ -> NDiffer "model=none"
+  | NDPanic, _ -> NDiffer "model=panic"
+  | NDRow r, _ -> NDiffer ("model=" ^ show_cells r)
+
+(* the statement's reading of an item: the path resolved segment by segment (a name = a field, a
+   bracket = its index / key), NULL when a step is missing.  np_parse (np_render segs) is that list of
+   parts whenever no name or bracket content contains '.', '[' or ']' (C05_path_render_parse). *)
+let seg_reference (row : (n list * jvalue) list) (sg : nseg list) : jvalue option =
+  let parts = List.map np_seg_part sg in
+  if List.exists (fun b -> match b with BPart _ -> false | _ -> true) parts then None
+  else Some (match np_get (JMap row) (List.filter_map (fun b -> match b with BPart p -> Some p | _ -> None) parts) with
+             | Some v -> v | None -> JS VNull)
+let route_name = function RSimple -> "simple" | RExpr -> "expr" | ROther -> "other"
+
+let handle_nq (rest : string list) : string =
+  match Win.split_hash rest with
+  | [ _; qenc; rowt; fresh; used; async ] ->
+      let (q, rendered) = p_nquery qenc in
+      (* the text put into the SQL statement is the canonical spelling of the structured path *)
+      if List.exists (fun (text, sg) -> np_render sg <> text) rendered then "diff np_render"
+      else
+      (match jvalue_of rowt with
+       | JMap row ->
+           let d = ndirect q row in
+           let stmt () =
+             (* implementation = model so far; now the statement: every cell is the value of its path *)
+             (match fresh with
+              | m :: _ when String.length m > 0 && m.[0] = 'M' ->
+                  (match jvalue_of fresh with
+                   | JMap cells ->
+                       let outs = List.map ni_out q.nq_items in
+                       let bad = List.filter_map (fun (it, (_, sg)) ->
+                         let o = ni_out it in
+                         if List.length (List.filter (fun x -> x = o) outs) <> 1 then None else
+                         match seg_reference row sg, List.assoc_opt o cells with
+                         | Some want, Some got when not (j_same want got) ->
+                             Some ("chk nested_item_vs_segments route=" ^ route_name (np_route it.ni_path)
+                                   ^ (if List.exists (fun s -> match s with SBr c -> List.exists (fun x -> Util.int_of_n x = 46) c | _ -> false) sg then " dot_in_key" else "")
+                                   ^ " item=" ^ hex_of_bytes it.ni_path ^ " want=" ^ show_j want ^ " got=" ^ show_j got)
+                         | _ -> None) (List.combine q.nq_items rendered) in
+                       (match bad with c :: _ -> Some c | [] -> None)
+                   | _ -> None)
+              | _ -> None) in
+           (match cmp_ndirect q d fresh with
+            | NDiffer m -> "diff ndirect " ^ m
+            | NUnmodelled ->
+                if fresh <> used then "chk nested_history_dependent fresh<>used"
+                else if fresh <> async then "chk nested_sync_async_differ fresh<>async"
+                else "ok"
+            | NSame nt ->
+                (match cmp_ndirect q d used, cmp_ndirect q d async with
+                 | NDiffer m, _ -> "chk nested_history_dependent " ^ m ^ " used=" ^ String.concat " " used
+                 | _, NDiffer m -> "chk nested_sync_async_differ " ^ m ^ " async=" ^ String.concat " " async
+                 | _, _ ->
+                     if fresh <> used then "chk nested_history_dependent fresh<>used"
+                     else if fresh <> async then "chk nested_sync_async_differ fresh<>async"
+                     else (match stmt () with Some c -> c | None -> if nt then "ok nt" else "ok")))
+       | _ -> "bad row")
+  | _ -> "bad line"
+
+let handle05c (toks : string list) : string =
+  match toks with
+  | "P" :: rest -> handle_p rest
+  | "NQ" :: rest -> handle_nq rest
+  | _ -> handle05 toks
+
+let () = Registry.register "C05" handle05c
